@@ -58,6 +58,54 @@ func ExecC05Async(caseText string) string {
 		}
 		inner = fmt.Sprintf("cmap c=%d n=%d sync=1 mg=0 cg=1%s script=%s", c, ln, extra, script)
 		bound = 3*c + 1
+	case "ccons":
+		// concurrent consume: gated callbacks (run-ahead of the producer over the callbacks handed out so far), or an
+		// ungated run whose callback fails at element mf (everything pulled until the terminal is gone)
+		c, _ := strconv.Atoi(kv["c"])
+		if c < 1 {
+			return "bad-case ccons needs c>=1"
+		}
+		if kv["mf"] != "" {
+			inner = fmt.Sprintf("ccons c=%d n=%d sync=0 mg=0 mf=%s script=-", c, ln, kv["mf"])
+		} else {
+			inner = fmt.Sprintf("ccons c=%d n=%d sync=1 mg=1 script=%s", c, ln, script)
+		}
+		o := execConc("C05")(inner)
+		pulled, calls, maxAhead, released := 0, 0, 0, 0
+		res, leak := "?", "?"
+		for _, t := range strings.Fields(o) {
+			switch {
+			case strings.HasPrefix(t, "plog="):
+				for _, tok := range strings.Split(strings.TrimPrefix(t, "plog="), ",") {
+					if strings.HasPrefix(tok, "r") && strings.HasSuffix(tok, "v") {
+						pulled++
+					}
+				}
+			case strings.HasPrefix(t, "calls="):
+				if v := strings.TrimPrefix(t, "calls="); v != "-" {
+					calls = len(strings.Split(v, ","))
+				}
+			case strings.HasPrefix(t, "res="):
+				res = strings.TrimPrefix(t, "res=")
+			case strings.HasPrefix(t, "leak="):
+				leak = strings.TrimPrefix(t, "leak=")
+			case strings.HasPrefix(t, "trace="):
+				if v := strings.TrimPrefix(t, "trace="); v != "-" {
+					for _, tok := range strings.Split(v, ",") {
+						p := strings.Split(tok, ":")
+						if len(p) == 3 && strings.HasPrefix(p[0], "m") {
+							inflight, _ := strconv.Atoi(p[1])
+							em, _ := strconv.Atoi(p[2])
+							if a := em - (released + inflight); a > maxAhead {
+								maxAhead = a
+							}
+							released++
+						}
+					}
+				}
+			}
+		}
+		return fmt.Sprintf("res=%s runahead=%d handed=%d len=%d bound=%d leak=%s pulled=%d", res, maxAhead, calls, ln, c+1, leak, pulled)
 	default:
 		return "bad-case"
 	}
@@ -136,6 +184,15 @@ func GenC05Async(c *Ctx) {
 			for _, ln := range []int{k, k + 1, k + 3*cc + 1, k + 3*cc + 2, 60, 300} {
 				c.Case(ln > k+3*cc+1, fmt.Sprintf("A concmap c=%d len=%d limit=%d script=-", cc, ln, k))
 			}
+		}
+	}
+	// concurrent consume: run-ahead over the callbacks (bound c+1), and everything pulled after a callback failed
+	for cc := 1; cc <= maxC; cc++ {
+		for _, ln := range []int{0, 1, cc + 1, cc + 2, 2*cc + 3, 40} {
+			c.Case(ln > cc+1, fmt.Sprintf("A ccons c=%d len=%d script=-", cc, ln))
+		}
+		for _, k := range []int{0, 1, cc, 2 * cc} {
+			c.Case(true, fmt.Sprintf("A ccons c=%d len=300 mf=%d script=-", cc, k))
 		}
 	}
 	nr := c.Pick(40, 600)
